@@ -40,6 +40,9 @@ func loadOrDie(cfg *RunCfg) *Program {
 		fmt.Fprintln(os.Stderr, "ENGINE-ERROR:", err)
 		os.Exit(2)
 	}
+	for _, st := range prog.CS.Stale {
+		fmt.Fprintln(os.Stderr, "STALE-CONTRACT:", st)
+	}
 	if cfg.DumpSynth {
 		d := filepath.Join(cfg.Out, "synth")
 		os.MkdirAll(d, 0o755)
